@@ -216,6 +216,8 @@ func main() {
 		"source_sha256": fmt.Sprintf("%x", h.Sum(nil))}
 	b, _ = json.MarshalIndent(st, "", " ")
 	os.WriteFile(filepath.Join(*outDir, "rewrite_stats.json"), b, 0o644)
+	lb, _ := json.Marshal(lineMaps)
+	os.WriteFile(filepath.Join(*outDir, "linemap.json"), lb, 0o644)
 	if *verbose {
 		fmt.Println(string(b))
 	}
@@ -281,14 +283,22 @@ func (r *pkgRewriter) run(files []string, overlay map[string]string, perFile map
 		if err := cfg.Fprint(&buf, r.fset, af); err != nil {
 			return err
 		}
+		// The //line directives are NOT kept in the output: the go1.23 compiler gives a loop that follows a
+		// //line directive Go 1.22 per-iteration variable semantics even in a go 1.21 module (probed), which
+		// would change the meaning of closures capturing loop variables. They are turned into a line map
+		// (rewritten line -> original file:line) that the runtime uses for traces.
+		rel := strings.ReplaceAll(r.pkg.ImportPath, "/", "_")
+		dst := filepath.Join(*outDir, rel, filepath.Base(paths[i]))
+		stripped, lm := stripLineDirectives(buf.Bytes())
+		buf.Reset()
+		buf.Write(stripped)
+		lineMaps[paths[i]] = lm // the compiler records the overlaid file under its original path
 		// residual scan on the printed output
 		if !r.light {
 			if err := residual(paths[i], buf.Bytes()); err != nil {
 				return err
 			}
 		}
-		rel := strings.ReplaceAll(r.pkg.ImportPath, "/", "_")
-		dst := filepath.Join(*outDir, rel, filepath.Base(paths[i]))
 		os.MkdirAll(filepath.Dir(dst), 0o755)
 		if err := os.WriteFile(dst, buf.Bytes(), 0o644); err != nil {
 			return err
@@ -297,6 +307,38 @@ func (r *pkgRewriter) run(files []string, overlay map[string]string, perFile map
 		perFile[paths[i]] = r.st
 	}
 	return nil
+}
+
+// lineMaps: rewritten file -> (rewritten line -> "origfile:line")
+var lineMaps = map[string]map[int]string{}
+
+func stripLineDirectives(src []byte) ([]byte, map[int]string) {
+	lm := map[int]string{}
+	var out bytes.Buffer
+	curFile, curLine := "", 0
+	n := 0
+	for _, l := range strings.SplitAfter(string(src), "\n") {
+		t := strings.TrimSpace(l)
+		if strings.HasPrefix(t, "//line ") {
+			spec := strings.TrimPrefix(t, "//line ")
+			if k := strings.LastIndex(spec, ":"); k > 0 {
+				if v, err := strconv.Atoi(spec[k+1:]); err == nil {
+					curFile, curLine = spec[:k], v
+					continue
+				}
+			}
+		}
+		if l == "" {
+			continue
+		}
+		n++
+		if curFile != "" {
+			lm[n] = curFile + ":" + strconv.Itoa(curLine)
+			curLine++
+		}
+		out.WriteString(l)
+	}
+	return out.Bytes(), lm
 }
 
 func stripDocs(f *ast.File) {
@@ -735,24 +777,35 @@ func (r *pkgRewriter) rangeChan(n *ast.RangeStmt) ast.Stmt {
 	chv := r.fresh("r")
 	okv := r.fresh("ok")
 	body := r.rewriteStmts(n.Body.List)
-	var head []ast.Stmt
 	recv := r.call(r.vs("Recv2"), ast.NewIdent(chv))
 	brk := &ast.IfStmt{Cond: &ast.UnaryExpr{Op: token.NOT, X: ast.NewIdent(okv)}, Body: &ast.BlockStmt{List: []ast.Stmt{&ast.BranchStmt{Tok: token.BREAK}}}}
-	switch {
-	case n.Key == nil:
-		head = append(head, &ast.AssignStmt{Lhs: []ast.Expr{ast.NewIdent("_"), ast.NewIdent(okv)}, Tok: token.DEFINE, Rhs: []ast.Expr{recv}}, brk)
-	case n.Tok == token.DEFINE:
-		head = append(head, &ast.AssignStmt{Lhs: []ast.Expr{n.Key, ast.NewIdent(okv)}, Tok: token.DEFINE, Rhs: []ast.Expr{recv}}, brk)
-		if id, ok := n.Key.(*ast.Ident); ok && id.Name != "_" {
-			head = append(head, &ast.AssignStmt{Lhs: []ast.Expr{ast.NewIdent("_")}, Tok: token.ASSIGN, Rhs: []ast.Expr{ast.NewIdent(id.Name)}})
+	chExpr := r.rewriteExpr(n.X)
+	if id, ok := n.Key.(*ast.Ident); ok && id.Name != "_" && n.Tok == token.DEFINE {
+		// The loop variable is declared ONCE per loop, in the for-init (Go <= 1.21 semantics of `range`, which is
+		// what the watermill module is compiled with; with go >= 1.22 the for-init variable is per-iteration,
+		// again like `range`), so a closure capturing it behaves as in the original:
+		//   for _r, x := vs.ChanAndZero(ch); ; { var _ok bool; x, _ok = vs.Recv2(_r); if !_ok { break }; {B} }
+		return &ast.ForStmt{
+			Init: &ast.AssignStmt{Lhs: []ast.Expr{ast.NewIdent(chv), ast.NewIdent(id.Name)}, Tok: token.DEFINE, Rhs: []ast.Expr{r.call(r.vs("ChanAndZero"), chExpr)}},
+			Body: &ast.BlockStmt{List: []ast.Stmt{
+				&ast.DeclStmt{Decl: &ast.GenDecl{Tok: token.VAR, Specs: []ast.Spec{&ast.ValueSpec{Names: []*ast.Ident{ast.NewIdent(okv)}, Type: ast.NewIdent("bool")}}}},
+				&ast.AssignStmt{Lhs: []ast.Expr{ast.NewIdent(id.Name), ast.NewIdent(okv)}, Tok: token.ASSIGN, Rhs: []ast.Expr{recv}},
+				brk,
+				&ast.AssignStmt{Lhs: []ast.Expr{ast.NewIdent("_")}, Tok: token.ASSIGN, Rhs: []ast.Expr{ast.NewIdent(id.Name)}},
+				&ast.BlockStmt{List: body},
+			}},
 		}
-	default:
+	}
+	var head []ast.Stmt
+	if n.Key == nil || n.Tok == token.DEFINE {
+		head = append(head, &ast.AssignStmt{Lhs: []ast.Expr{ast.NewIdent("_"), ast.NewIdent(okv)}, Tok: token.DEFINE, Rhs: []ast.Expr{recv}}, brk)
+	} else {
 		tmp := r.fresh("v")
 		head = append(head, &ast.AssignStmt{Lhs: []ast.Expr{ast.NewIdent(tmp), ast.NewIdent(okv)}, Tok: token.DEFINE, Rhs: []ast.Expr{recv}}, brk,
 			&ast.AssignStmt{Lhs: []ast.Expr{r.rewriteExpr(n.Key)}, Tok: token.ASSIGN, Rhs: []ast.Expr{ast.NewIdent(tmp)}})
 	}
 	return &ast.ForStmt{
-		Init: &ast.AssignStmt{Lhs: []ast.Expr{ast.NewIdent(chv)}, Tok: token.DEFINE, Rhs: []ast.Expr{r.rewriteExpr(n.X)}},
+		Init: &ast.AssignStmt{Lhs: []ast.Expr{ast.NewIdent(chv)}, Tok: token.DEFINE, Rhs: []ast.Expr{chExpr}},
 		Body: &ast.BlockStmt{List: append(head, &ast.BlockStmt{List: body})},
 	}
 }
